@@ -76,10 +76,11 @@ GridDef == [
   GibbsEqConst |-> { PS([dH_over_R |-> <<-5000, 1, 0>>, dS_over_R |-> <<3, 1, 0>>], [dH_over_R |-> <<2500, 1, 0>>, dS_over_R |-> <<-7, 2, 0>>], NoEnv),
                      PS([dH_over_R |-> <<0, 1, 0>>, dS_over_R |-> <<0, 1, 0>>], [dH_over_R |-> <<2500, 1, 0>>, dS_over_R |-> <<-7, 2, 0>>], NoEnv) },
   ArrheniusParam |-> { PS([A |-> <<1, 1, 13>>, Ea |-> <<40, 1, 3>>], NoEnv, NoEnv), PS([A |-> <<5, 2, -3>>, Ea |-> <<150, 1, 3>>], NoEnv, NoEnv) },
-  ArrheniusAsRate |-> { PS([A |-> <<1, 1, 13>>, Ea |-> <<40, 1, 3>>], [A |-> <<7, 2, 9>>, Ea |-> <<40, 1, 3>>], XY),
-                        PS([A |-> <<5, 2, -3>>, Ea |-> <<150, 1, 3>>], [A |-> <<7, 2, 9>>, Ea |-> <<150, 1, 3>>], XY2) },
+  ArrheniusAsRate |-> { PS([A |-> <<1, 1, 13>>, Ea |-> <<40, 1, 3>>], [A |-> <<7, 2, 9>>, Ea |-> <<6000, 1, 0>>], XY),
+                        PS([A |-> <<5, 2, -3>>, Ea |-> <<150, 1, 3>>], [A |-> <<7, 2, 9>>, Ea |-> <<25, 1, 2>>], XY2) },
   EyringParam |-> { PS([dH |-> <<72, 1, 3>>, dS |-> <<614, 10, 0>>], NoEnv, NoEnv), PS([dH |-> <<40, 1, 3>>, dS |-> <<-20, 1, 0>>], NoEnv, NoEnv) },
-  EyringAsRate |-> { PS([dH |-> <<72, 1, 3>>, dS |-> <<614, 10, 0>>], NoEnv, XY), PS([dH |-> <<40, 1, 3>>, dS |-> <<-20, 1, 0>>], NoEnv, XY2) },
+  EyringAsRate |-> { PS([dH |-> <<72, 1, 3>>, dS |-> <<614, 10, 0>>], [dS |-> <<3, 1, 12>>, dH |-> <<9000, 1, 0>>], XY),
+                     PS([dH |-> <<40, 1, 3>>, dS |-> <<-20, 1, 0>>], [dS |-> <<2, 1, 8>>, dH |-> <<3000, 1, 0>>], XY2) },
   ArrheniusFromK |-> { PS([Ea |-> <<40, 1, 3>>, T0 |-> <<5963, 20, 0>>, k0 |-> <<1, 1, 6>>], NoEnv, NoEnv),
                        PS([Ea |-> <<125, 1, 3>>, T0 |-> <<1000, 1, 0>>, k0 |-> <<3, 1, -2>>], NoEnv, NoEnv) },
   FitArrhenius |-> { PS([A |-> <<1, 1, 10>>, B |-> <<5000, 1, 0>>], NoEnv, NoEnv), PS([A |-> <<3, 1, 0>>, B |-> <<250, 1, 0>>], NoEnv, NoEnv) },
@@ -106,5 +107,5 @@ TempsT == { <<200, 1, 0>>, <<5963, 20, 0>>, <<500, 1, 0>>, <<1000, 1, 0>>, <<200
 LC_All == AllLawClasses
 M_All == AllModes
 Pat_All == AllPatterns
-Pat_Q == {"none", "all", "keys-only", "dict"}
+Pat_Q == {"none", "first", "all", "keys-only", "dict"}
 =============================================================================
